@@ -30,6 +30,12 @@ def render_script(label, body, bodies):
         elif k == "sl":
             out.append('diag_log ["M",%d,%d,%s]' % (label, step, last))
             out.append("sleep %s" % (ins[1] / 1000.0))
+        elif k == "lp":      # a loop of several instructions per iteration
+            out.append('diag_log ["M",%d,%d,%s]' % (label, step, last))
+            out.append('for "_q" from 1 to %d do {gQ%d = _q}' % (ins[1], label))
+        elif k == "ls":      # a loop whose blocks are one instruction each: the slice bound has to hold there too
+            out.append('diag_log ["M",%d,%d,%s]' % (label, step, last))
+            out.append('for "_q" from 1 to %d do {gQ%d}' % (ins[1], label))
         elif k == "sp":
             j = ins[1]
             out.append('diag_log ["M",%d,%d,%s]' % (label, step, last))
@@ -122,6 +128,14 @@ def systematic(tier):
     # several sleepers with different wake-up times, scripts finishing meanwhile
     for d1, d2 in itertools.product((2, 6), (3, 9)):
         shapes.append(([1, 2, 3], {1: [M, ("sl", d1), M], 2: [("sl", d2), M, M], 3: [M]}))
+    # loops: a slice ends after its number of instructions also inside a loop, the other scripts get their turns
+    shapes.append(([1, 2], {1: [M, ("lp", 12), M], 2: [M, M, M, M]}))
+    shapes.append(([1, 2], {1: [M, ("ls", 25), M], 2: [M, M, M, M]}))
+    shapes.append(([1, 2, 3], {1: [("ls", 15), M], 2: [("lp", 6), M], 3: [M, M]}))
+    # terminate followed at once (same slice) by scriptDone of the target, which has started, sleeps and still has
+    # statements: it is not done before its next scheduling point has come
+    shapes.append(([1], {1: [("sp", 2), ("sl", 5), ("te", 2), ("sd", 2), M, ("sl", 30), ("sd", 2)], 2: [M, ("sl", 50), M]}))
+    shapes.append(([1], {1: [("sp", 2), ("sl", 5), ("te", 2), ("sd", 2), ("sd", 2)], 2: [M, ("sl", 8), M, M]}))
     # naps long enough that nothing but the wake-up time explains the delay (fractions of a second)
     shapes.append(([1, 2], {1: [M, ("sl", 40), M, M], 2: [M, ("sl", 75), M]}))
     slices = (1, 2, 3) if tier == "quick" else (1, 2, 3, 4, 7)
